@@ -153,6 +153,28 @@ def flag_of(c):
     return None
 
 
+def and_phi_of(c):
+    """name of the block that evaluated b if the branch condition is the i1 phi of `a && b` (false from a's block, b from b's)."""
+    v = c
+    for _ in range(6):
+        i = v.inst
+        if i is None:
+            return None
+        if i.op in ("zext", "sext", "trunc"):
+            v = i.ops[0]
+        elif i.op == "icmp" and i.pred == "ne" and any(o.is_const_int() and o.uval == 0 for o in i.ops):
+            v = [o for o in i.ops if not o.is_const_int()][0]
+        elif i.op == "phi" and i.ty == "i1":
+            live = [(x, b) for x, b in i.incoming if not (x.is_const_int() and x.uval == 0)]
+            if len(live) == 1 and not live[0][0].is_const_int():
+                b = live[0][1]
+                return b if isinstance(b, str) else b.name
+            return None
+        else:
+            return None
+    return None
+
+
 def cond_facts(c, m):
     """(facts on the true edge, facts on the false edge) of branch condition value c."""
     i = c.inst
@@ -162,8 +184,15 @@ def cond_facts(c, m):
         other = [o for o in i.ops if not o.is_const_int()][0]
         t, f = cond_facts(other, m)
         return f, t
-    if i.op in ("zext", "trunc"):
+    if i.op in ("zext", "trunc", "sext"):
         return cond_facts(i.ops[0], m)
+    if i.op == "phi" and i.ty == "i1":
+        # a && b as clang leaves it: false from the block that tested a, b's value from the block that tested b.  On the true
+        # edge b holds (what held at the end of the block that evaluated b is added by edge_states)
+        live = [v for v, b_ in i.incoming if not (v.is_const_int() and v.uval == 0)]
+        if len(live) == 1 and not live[0].is_const_int():
+            return cond_facts(live[0], m)[0], []
+        return [], []
     if i.op == "icmp" and i.pred not in ("eq", "ne"):
         # ordered comparison of the byte with a constant: the edge on which a NUL byte would have gone the other way knows
         # that the byte is not NUL
@@ -237,10 +266,13 @@ def cond_facts(c, m):
                 k = pkey(ld.ops[0], m)
                 if k:
                     eq_f.append(("nonnul", k[0], k[1]))     # class bit set -> not NUL
+                    msk = [o.uval for o in (a.inst.ops if a.inst is not None and a.inst.op == "and" else []) if o.is_const_int()]
+                    if msk and msk[0] == CTYPE_BITS.get("isxdigit"):
+                        eq_f.append(("xd", k[0], k[1]))     # the byte is a hexadecimal digit
             elif b.uval == 0:
                 # (x != 0) where x is itself a condition
                 inner = a.inst
-                if inner is not None and inner.op in ("zext", "icmp", "and", "xor"):
+                if inner is not None and inner.op in ("zext", "sext", "trunc", "icmp", "and", "xor", "phi"):
                     t, f = cond_facts(a, m)
                     eq_t, eq_f = f, t
     if i.pred == "eq":
@@ -407,8 +439,18 @@ class Cursor:
         if t.op == "br" and t.cond is not None:
             tf, ff = cond_facts(t.cond, self.m)
             fl = flag_of(t.cond)
+            andphi = and_phi_of(t.cond)
             for succ, facts, edge_true in ((t.succs[0], tf, True), (t.succs[1], ff, False)):
                 facts = list(facts)
+                if andphi is not None and edge_true and getattr(self, "_IN", None) is not None:
+                    # the true edge of (a && b) is only reached through the block that evaluated b: what held at its end holds here
+                    pb = self.fn.blocks[andphi]
+                    outs = [self.transfer(pb, self._IN[(pb.name, part)], False) for part in (True, False) if (pb.name, part) in self._IN]
+                    if outs:
+                        keep = set.intersection(*[set(o) for o in outs])
+                        facts += [f for f in keep if f[0] in ("nonnul", "instr", "xd", "nnp", "src")]
+                if fl is not None and fl[1] != edge_true and ("implz", fl[0]) in S:
+                    facts.append(("nocolon",))
                 # a search for ':' from inside the string that found nothing: there is no 'address:' prefix on this line or on
                 # any later one (the cursor only moves forward)
                 if any(f[0] == "null" and f[1] in self.colon_scans for f in facts):
@@ -442,8 +484,13 @@ class Cursor:
                     if v.is_const_int():
                         if v.uval == 0 or ("nocolon",) in S:
                             S2.add(("impl", i.name))
-                    elif v.k == "inst" and ("impl", v.name) in S:
-                        S2.add(("impl", i.name))
+                        if v.uval != 0 or ("nocolon",) in S:
+                            S2.add(("implz", i.name))       # the flag in positive logic: zero only after a failed search
+                    elif v.k == "inst":
+                        if ("impl", v.name) in S:
+                            S2.add(("impl", i.name))
+                        if ("implz", v.name) in S:
+                            S2.add(("implz", i.name))
                 continue
             if i.ty != "i8*":
                 continue
@@ -481,6 +528,7 @@ class Cursor:
         NL = ("no-nl",)
         st0 = close({("src", self.str_arg), NL})
         IN = {(fn.entry.name, True): st0}
+        self._IN = IN
         work = [(fn.entry, True)]
         iters = 0
         while work:
@@ -605,6 +653,8 @@ def check_return_edge(chk, m, fn, t, v, pred, blk, part, S):
                         if kk and (dig is None or kk[1] < dig[1]):
                             dig = kk
         okp = dig is not None and dig[1] == 0 and (("pfxok", dig[0]) in S or ("pfx", dig[0]) in S)
+        if not okp and dig is not None and ("xd", dig[0], dig[1]) in S and ("xd", dig[0], dig[1] + 1) in S:
+            okp = True      # both characters are hexadecimal digits: the second is not 'x', so there is no "0x" here to skip
         chk.ob("H2.hex-prefix", where, okp,
                "the digits parsed are the ones found after looking for an optional \"0x\" at that very position (after any white space)"
                if okp else "the optional \"0x\" prefix is not looked for at the position of the digits (it is tested before the white "
